@@ -114,9 +114,10 @@ def run(res, tier, rng, table_diffs=()):
         cases.append(("long-loop", "stel i = 0; stel s = 0; zolang i < %d { i += 1; als i %% 7 == 0 { volgende }; s += 1; }; functie f(a) { a + 1 } [i, s, f(1)]" % n))
         cases.append(("long-loop", "functie g() { stel i = 0; zolang i < %d { i += 1; {}; als i == 0 { stop }; }; i } [g(), g()]" % n))
         cases.append(("long-loop", "stel i = 0; zolang i < %d { i += 1; als ja { 1 } anders { 2 }; zolang nee { }; }; i" % n))
+    random_cases = []
     for _ in range(300 if tier == "quick" else 4000):
         src, _ = gen.random_program(rng.fork(), size=rng.range(20, 70))
-        cases.append(("random", src))
+        random_cases.append(("random", src))
     cases += function_boundary()
     from .. import gen2
     cases += [("tail-shapes", p) for p in gen2.tail_shape_programs()]
@@ -145,6 +146,9 @@ def run(res, tier, rng, table_diffs=()):
             return "control flow depends on where the code lies: the same construct gives another value at this byte offset"
         return residue(label, src, r)
     run_cases(res, "C11", cases, budget=3000000, extra_oracle=residue_or_value)
+    # random programs get the ordinary budget: a runaway loop costs the model 3 000 000 steps otherwise, and thousands of them
+    # (thorough tier) land in one worker's chunk
+    run_cases(res, "C11", random_cases, budget=300000, extra_oracle=residue)
     # K3 probes: stop/volgende under pending operands (known finding).  (a) the residue itself; (b) its
     # consequence for values: a loop left that way which is itself a later operand makes the enclosing
     # operator consume the residue instead of the earlier operand
